@@ -6,6 +6,8 @@ mod known;
 mod props;
 mod runner;
 mod scen_a;
+mod scen_b;
+mod scen_c;
 mod scen_d;
 mod scen_e;
 mod variants;
